@@ -12,6 +12,7 @@
    from names to optional byte strings: nothing is bounded or sampled. *)
 From Coq Require Import NArith List Bool String.
 From AV Require Import Spec.Choice Generated.Choice Model.Base Model.Choice Proofs.Choice Generated.ChoiceFn Proofs.ChoiceGen.
+From AV Require Import Spec.Io Model.Stream Model.Glue Generated.MacrosFn Proofs.MacrosGen Proofs.MacrosChoice.
 Import ListNotations.
 Local Open Scope N_scope.
 
@@ -140,3 +141,42 @@ Proof. exact translated_flag_then_global_is_spec. Qed.
 (* before any write_global: `static USER = AtomicChoice::new()` read back by ColorChoice::global() *)
 Theorem c09_translated_initial_global : (u <- g_user_initial ;; g_global u) = Some ch_global_initial.
 Proof. exact translated_initial_global. Qed.
+
+(* impl Default for ColorChoice: `Auto` *)
+Theorem c09_translated_default_choice : g_choice_default = ch_choice_default.
+Proof. exact g_choice_default_eq. Qed.
+
+(* impl Default for AtomicChoice: the value of AtomicChoice::new(), never panics *)
+Theorem c09_translated_default_atomic : g_atomic_default = Some ch_atomic_default.
+Proof. exact g_atomic_default_eq. Qed.
+
+(* the default atomic is the initial value of `static USER`; read back (AtomicChoice::get, ColorChoice::global on
+   the never-written static) it holds the default choice *)
+Theorem c09_translated_defaults_agree :
+  g_atomic_default = g_user_initial /\
+  (a <- g_atomic_default ;; g_atomic_get a) = Some g_choice_default /\
+  (u <- g_user_initial ;; g_global u) = Some g_choice_default.
+Proof. exact translated_default_atomic_holds_default_choice. Qed.
+
+(* the print macros (crates/anstream/src/_macros.rs, translated arm by arm: Generated/MacrosFn.v; [mac_arm err nl] = print!,
+   println!, eprint!, eprintln!) meet the decision: when the answers of the std handle the macro names ([cf_of_choice]: its
+   `choice(&raw)` = the hand model of this property for ITS OWN terminal-ness -- tty_out for print! / println!, tty_err for
+   eprint! / eprintln! --, i.e. the translated g_choice by c09_translated_choice_is_model), then outside tests the macro
+   strips exactly when the decision list says Never, forwards unchanged otherwise, and the stream it writes to is that same
+   handle (the other handle's terminal-ness plays no role).  This theorem makes C09 depend on the translations of the
+   stream area (gen_deps: StreamFn, FmtFn, AutoFn, GlueFn, MacrosFn) *)
+Theorem c09_translated_print_follows_choice :
+  forall lossy fmt_nl (err nl : bool) cfv ch g e (tty_out tty_err wv : bool) (so se : writer) world args,
+  let tty := if err then tty_err else tty_out in
+  let d := choice_model g e tty in
+  d = choice_spec g e tty /\ d <> ChAuto /\
+  mac_arm lossy fmt_nl err nl false false cfv ch (cf_of_choice g e tty wv) so se world args =
+  match auto_op wv (match d with ChNever => MStrip | _ => MPass end) sb_new (if err then se else so)
+                (OWriteFmt (if nl then fmt_nl args else args)) with
+  | Some (s1, w1, r) =>
+      Some (world ++ MWriteFmt (as_of (match d with ChNever => MStrip | _ => MPass end) s1 w1)
+                               (match r with RErr e => inr e | _ => inl tt end)
+                     :: match r with RErr e => [MPanicIo (if err then mac_msg_stderr else mac_msg_stdout) e] | _ => [] end)
+  | None => None
+  end.
+Proof. exact translated_print_follows_choice. Qed.
